@@ -9,6 +9,7 @@ import NeoFS.Driver.Meta
 import NeoFS.Driver.Dump
 import NeoFS.Driver.WC
 import NeoFS.Driver.EList
+import NeoFS.Driver.GC
 open NeoFS NeoFS.Driver
 
 /-- State of all stateful models; pure models need none. -/
@@ -17,6 +18,7 @@ structure DState where
   metaSt : NeoFS.Driver.MetaState := {}
   wc : NeoFS.WC.St := { maxSize := 6000 }
   elist : NeoFS.Driver.EListState := {}
+  gc : NeoFS.Driver.GCState := {}
 
 def stepLine (s : DState) (line : String) : DState × String :=
   let o := parseOp line
@@ -30,6 +32,7 @@ def stepLine (s : DState) (line : String) : DState × String :=
   | "gov" => (s, govStep o)
   | "dump" => (s, dumpStep o)
   | "wc" => let (w, out) := wcStep s.wc o; ({ s with wc := w }, out)
+  | "gc" => let (g, out) := gcStep s.gc o; ({ s with gc := g }, out)
   | "elist" => let (e, out) := elistStep s.elist o; ({ s with elist := e }, out)
   | "meta" => let (m, out) := metaStep s.metaSt o; ({ s with metaSt := m }, out)
   | "timers" => let (t, out) := timersStep s.timers o; ({ s with timers := t }, out)
